@@ -71,7 +71,9 @@ FRAGS += ["Def/MyDef/a$b", "Def/MyDef/ok", "Def/Plain", "Label/a$b", "Property/I
           "Item/Object/Man-made-object/Vehicle/Train/Maglev",
           "Property/Sensory-property/Sensory-attribute/Visual-attribute/Color/CSS-color/Red-color/Red/Crimson"]
 # fragments whose offending piece is known by construction: (code, exact text the offsets must select)
-EXPECT = {"Def/MyDef/a$b": ("CHARACTER_INVALID", "$"), "Label/a$b": ("CHARACTER_INVALID", "$"), "Property/Informational-property/Label/a$b": ("CHARACTER_INVALID", "$"),
+FRAGS += ["Label/two  words", "Red  /Bloody", "Duration/3  s"]      # runs of blanks inside a tag
+EXPECT = {"Label/two  words": ("TAG_INVALID", "  "), "Red  /Bloody": ("TAG_INVALID", "  /"), "Duration/3  s": ("TAG_INVALID", "  "),
+          "Def/MyDef/a$b": ("CHARACTER_INVALID", "$"), "Label/a$b": ("CHARACTER_INVALID", "$"), "Property/Informational-property/Label/a$b": ("CHARACTER_INVALID", "$"),
           "Informational-property/Label/x$y": ("CHARACTER_INVALID", "$"), "Label/a b": ("CHARACTER_INVALID", " "),
           "Item/Object/Man-made-object/Vehicle/Train/Maglev": ("TAG_EXTENDED", "/Maglev"), "Train/Maglev": ("TAG_EXTENDED", "/Maglev"),
           "Train/Maglev/Fast": ("TAG_EXTENDED", "/Maglev/Fast"), "Item/Object/Junk": ("TAG_EXTENDED", "/Junk"),
@@ -274,6 +276,11 @@ def _check_issue(W, i, where, viol, probe):
         if exp and exp[0] == i["code"]:
             probe("known_offending_fragment_checked")
         body = msg.split(SUFFIX)[0]
+        if frag and " " in frag and not frag.replace("/", "").strip() and ("'%s'" % frag) not in body:
+            # a fragment made of blanks (and slashes) is quoted verbatim or not at all
+            viol("offsets", "%s: %s offsets (%d, %d) select %r, but the message quotes something else: %r" % (where, i["code"], ci, ce, frag, body[:200]),
+                 "fragment-not-quoted-%s" % i["code"])
+            return False
         if frag.strip() and _nows(frag) not in _nows(body):
             viol("offsets", "%s: %s offsets (%d, %d) select %r, which the message does not quote: %r" % (where, i["code"], ci, ce, frag, body[:200]),
                  "fragment-not-quoted-%s" % i["code"])
